@@ -612,7 +612,8 @@ enum_ops(mc_op *out, int max)
             ADD(O_REL, i, 0, 0, 0);
         if (!M.e[i].live || thorough)
             ADD(O_USE, i, 0, 0, 0);
-        for (int k = 0; k < (thorough ? 4 : 2); k++) {
+        /* (the H-level calls do not share one id check, so family 0 tries all four foreign kinds in the quick tier too) */
+        for (int k = 0; k < ((thorough || M.fam == 0) ? 4 : 2); k++) {
             int ok = others[M.fam][k];
             if (ok == M.e[i].kind)
                 continue;
